@@ -1088,8 +1088,14 @@ class InspectFunction(object):
         body: Sequence[ast.AST],
         arg_ctx: FunctionArgContext,
         fun_path: CanonicalPath,
+        arg_names: Optional[List[str]] = None,
     ) -> List[LocalVar]:
-        lvars_v = LocalVarsVisitor(list(arg_ctx.named_args.keys()), fun_path)
+        # The parameters of the piece of code itself, when they are given: the context of the arguments may be the one
+        # of another function (the methods of a class are analysed with the arguments of the call of the class).
+        lvars_v = LocalVarsVisitor(
+            list(arg_ctx.named_args.keys()) if arg_names is None else arg_names,
+            fun_path,
+        )
         for node in body:
             lvars_v.visit(node)
         lvars = sorted(list(lvars_v.vars))
@@ -1152,7 +1158,7 @@ class InspectFunction(object):
             for elem in node.body
             if not isinstance(elem, (ast.FunctionDef, ast.AsyncFunctionDef))
         ]
-        class_local_vars = set(cls.get_local_vars(class_stmts, arg_ctx, fun_path))
+        class_local_vars = set(cls.get_local_vars(class_stmts, arg_ctx, fun_path, []))
         class_vdeps = ExternalVarsVisitor(mod, gctx, class_local_vars)
         for elem in class_stmts:
             class_vdeps.visit(elem)
@@ -1203,7 +1209,9 @@ class InspectFunction(object):
             body = [node.body]
         else:
             raise DDSException(f"unknown ast node {type(node)}")
-        local_vars = set(cls.get_local_vars(body, arg_ctx, fun_path))
+        local_vars = set(
+            cls.get_local_vars(body, arg_ctx, fun_path, _arg_names(node.args))
+        )
         # _logger.debug(f"inspect_fun: %s local_vars: %s", fun_path, local_vars)
         vdeps = ExternalVarsVisitor(mod, gctx, local_vars)
         for n in body:
